@@ -25,6 +25,7 @@ package pogreb
 //@   ensures shift: forall p int :: slotIdx <= p && p < slotsPerBucket-1 ==> b.slots[p] == old(b.slots[p+1])
 //@   ensures last: b.slots[slotsPerBucket-1] == slot{}
 //@   ensures next: b.next == old(b.next)
+//@   ensures [C01] inlog: theDB() != nil && old(bucketPtrInLog(b, theDB().datalog)) ==> bucketPtrInLog(b, theDB().datalog)
 //@   modifies b.slots
 //@   loop 1:
 //@     invariant slotIdx <= i && i <= slotsPerBucket-1
@@ -126,6 +127,7 @@ package pogreb
 //@   ensures appendonly: err == nil ==> forall q int :: 0 <= q && q < off ==> fData[fidOf[f.File]][q] == old(fData[fidOf[f.File]])[q]
 //@   ensures written: err == nil ==> sameBytes(fData[fidOf[f.File]], int(off), contents(data), off(data), len(data))
 //@   ensures err: err != nil ==> isIOErr(err)
+//@   ensures failed: err != nil ==> f.size == old(f.size)
 //@   ensures handle: f.File == old(f.File)
 //@   modifies f.size, fData[fidOf[f.File]], fLen[fidOf[f.File]], fDur[fidOf[f.File]]
 
